@@ -21,7 +21,7 @@ MAXDIM = 1 << 20
 TRUSTED = [
     'PyVC executor and its encoding of Python semantics (DESIGN 2.3), z3 5.1.0 / cvc5',
     'cv2.resize(img, (w, h)) returns an image of exactly h x w for w >= 1 and h >= 1 and raises cv2.error otherwise (assumed contract)',
-    'cv2.flip / cv2.rotate / cv2.cvtColor / cv2.rectangle: size algebra and involution laws (flip(flip(x,c),c) = x, rotcw(rotccw(x)) = x) are library facts (T4)',
+    'cv2.flip / cv2.rotate: the documented index maps per code (dst(y,x) = src(...)) and output sizes are assumed and cross-checked against the real cv2 on every run; the involution laws are then PROVED over them (InvolutionLemmas); cv2.cvtColor / cv2.rectangle: size algebra is a library fact (T4)',
     'Frame(image, frame) keeps the format of `frame` and has height/width = image.shape[:2] (proved separately under C10)',
 ]
 ASSUMPTIONS = [
@@ -673,3 +673,70 @@ class BoxUnit(Unit):
 
 
 UNITS += [XformsUnit(), BoxUnit()]
+
+
+# ------------------------------------------------------------------------------------------------ involution lemmas over the documented index maps of cv2.flip / cv2.rotate
+def involution_lemmas(tier='quick'):
+    """cv2.flip / cv2.rotate as index maps (documented semantics, trusted per primitive): dst(y, x) = src(fy(code, H, W, y, x), fx(...)) with the output size (oh, ow).
+    Over these maps, with the codes the actions were PROVED to use (EXPECT, checked on the real Util.execute_xforms by XformsUnit): each flip is its own inverse and the two
+    rotations undo each other, for every image size."""
+    H, W, y, x = z3.Ints('H W y x')
+
+    def flip(code, h, w, yy, xx):           # -> source coordinates, output size
+        return {1: (yy, w - 1 - xx), 0: (h - 1 - yy, xx), -1: (h - 1 - yy, w - 1 - xx)}[code], (h, w)
+
+    def rot(code, h, w, yy, xx):
+        if code == CV['ROTATE_90_CLOCKWISE']:          # out is w x h (rows x cols): out[yy][xx] = src[h - 1 - xx][yy]
+            return (h - 1 - xx, yy), (w, h)
+        if code == CV['ROTATE_90_COUNTERCLOCKWISE']:   # out[yy][xx] = src[xx][w - 1 - yy]
+            return (xx, w - 1 - yy), (w, h)
+        return (h - 1 - yy, w - 1 - xx), (h, w)        # ROTATE_180
+    prim = {'flip': flip, 'rotate': rot}
+    dims = [H >= 1, W >= 1]
+
+    def compose(a, b):
+        """apply action a, then b: where does pixel (y, x) of the final image come from in the original?"""
+        pa, ca = EXPECT[a]
+        pb, cb = EXPECT[b]
+        _, (h1, w1) = prim[pa](ca, H, W, y, x)
+        (y1, x1), (h2, w2) = prim[pb](cb, h1, w1, y, x)           # final(y, x) = mid(y1, x1)
+        (y0, x0), _ = prim[pa](ca, H, W, y1, x1)                  # mid(y1, x1) = orig(y0, x0)
+        return (y0, x0), (h2, w2)
+    out = []
+    for a, b in (('flipx', 'flipx'), ('flipy', 'flipy'), ('flipboth', 'flipboth'), ('rotcw', 'rotccw'), ('rotccw', 'rotcw')):
+        (y0, x0), (h2, w2) = compose(a, b)
+        out.append((f'C17.involution: {a} then {b} is the identity on pixels and size, for every image size', dims + [y >= 0, x >= 0, y < h2, x < w2],
+                    z3.And(y0 == y, x0 == x, h2 == H, w2 == W)))
+    (y0, x0), (h2, w2) = compose('flipx', 'flipy')
+    out.append(('C17.involution: flipx then flipy is flipboth', dims + [y >= 0, x >= 0, y < H, x < W], z3.And(y0 == H - 1 - y, x0 == W - 1 - x, h2 == H, w2 == W)))
+    (y0, x0), (h2, w2) = compose('rotcw', 'rotcw')
+    out.append(('CANARY: rotcw twice is the identity', dims + [y >= 0, x >= 0, y < H, x < W, H == W], z3.And(y0 == y, x0 == x)))
+    return out
+
+
+from .lemmas import LemmaUnit
+
+
+class InvolutionLemmas(LemmaUnit):
+    def crosscheck(self, n, seed):
+        """the index maps the lemmas assume for cv2.flip / cv2.rotate, compared with the real cv2 on random small images"""
+        import random
+        import numpy as np
+        import cv2
+        rnd = random.Random(seed)
+        bad, cnt = [], 0
+        for _ in range(max(4, n // 4)):
+            H, W = rnd.randint(1, 7), rnd.randint(1, 7)
+            a = np.array([[rnd.randrange(256) for _ in range(W)] for _ in range(H)], dtype=np.uint8)
+            cw, ccw = cv2.rotate(a, cv2.ROTATE_90_CLOCKWISE), cv2.rotate(a, cv2.ROTATE_90_COUNTERCLOCKWISE)
+            f1, f0, fm = cv2.flip(a, 1), cv2.flip(a, 0), cv2.flip(a, -1)
+            ok = (cw.shape == (W, H) and ccw.shape == (W, H) and all(cw[y][x] == a[H - 1 - x][y] and ccw[y][x] == a[x][W - 1 - y] for y in range(W) for x in range(H))
+                  and all(f1[y][x] == a[y][W - 1 - x] and f0[y][x] == a[H - 1 - y][x] and fm[y][x] == a[H - 1 - y][W - 1 - x] for y in range(H) for x in range(W))
+                  and (cv2.ROTATE_90_CLOCKWISE, cv2.ROTATE_180, cv2.ROTATE_90_COUNTERCLOCKWISE) == (CV['ROTATE_90_CLOCKWISE'], CV['ROTATE_180'], CV['ROTATE_90_COUNTERCLOCKWISE']))
+            cnt += 1
+            if not ok:
+                bad.append(f'cv2 disagrees with the assumed index maps on a {H}x{W} image')
+        return cnt, bad
+
+
+UNITS.append(InvolutionLemmas('C17.involution lemmas (index maps of cv2.flip / cv2.rotate with the proved action codes)', involution_lemmas))
